@@ -776,9 +776,9 @@ func MakeConnWithCompleteHandshake(tcpConn net.Conn, version uint16, cipherSuite
 		var clientCipher, serverCipher interface{}
 		var clientHash, serverHash hash.Hash
 		if cs.cipher != nil {
-			clientCipher = cs.cipher(clientKey, clientIV, true /* for reading */)
+			clientCipher = cs.cipher(clientKey, clientIV, !isClient /* the server reads with the client's write key */)
 			clientHash = cs.mac(clientMAC)
-			serverCipher = cs.cipher(serverKey, serverIV, false /* not for reading */)
+			serverCipher = cs.cipher(serverKey, serverIV, isClient /* the client reads with the server's write key */)
 			serverHash = cs.mac(serverMAC)
 		} else {
 			clientCipher = cs.aead(clientKey, clientIV)
